@@ -16,7 +16,7 @@ fn vis(v: &Option<ReplicatedValue>) -> Option<u8> {
 /// `n` LWW updates of one key (symbolic stamps, bytes, tombstone flags, any two replicas) spread over the segments
 /// being compacted, in a symbolic order; optionally one more update of the key in a segment or checkpoint that is
 /// NOT part of the compaction; the tombstone cutoff is any u64 (TTL 0, clock symbolic).
-pub fn fold(n: usize, with_outside: bool) {
+pub fn fold(n: usize, outside_mode: u8) {
     let now = vs::u64();
     let mut stamps = [any_clock(), any_clock(), any_clock()];
     let bytes = [vs::u8(), vs::u8(), vs::u8()];
@@ -34,7 +34,8 @@ pub fn fold(n: usize, with_outside: bool) {
     let ots = any_clock();
     let ob = vs::u8();
     let otomb = vs::bool();
-    let has_out = if with_outside { vs::bool() } else { false };
+    // outside_mode: 0 = no update outside the compaction, 1 = optionally one (symbolic), 2 = always one
+    let has_out = match outside_mode { 0 => false, 1 => vs::bool(), _ => true };
     if has_out {
         let mut i = 0;
         while i < n { if stamps[i] == ots { vs::assume(bytes[i] == ob && tombs[i] == otomb); } i += 1; }
@@ -43,6 +44,8 @@ pub fn fold(n: usize, with_outside: bool) {
     let inside = [mk(0), mk(1), mk(2)];
     let outside = if has_out { Some(ReplicationDelta::new("k".to_string(), lww_value(ob, otomb, ots), ReplicaId(ots.replica_id.0))) } else { None };
     let (before, after, survives, dropped) = crate::env::compact_then_recover(inside, outside, now);
+    vcheck!(dropped != u64::MAX, "compact:the surviving update of LWW inputs is not an LWW value");
+    if dropped == u64::MAX { return; }
     // (1) nothing dropped: recovery must return the very same register (value, liveness, stamp)
     if dropped == 0 {
         vcheck!(vis(&before) == vis(&after), "compact:recovered value differs after compaction (no tombstone dropped)");
@@ -51,7 +54,11 @@ pub fn fold(n: usize, with_outside: bool) {
         vcheck!(survives, "compact:a key vanished from the compacted segment although no tombstone was dropped");
     } else {
         // (2) a tombstone was dropped: allowed only if nothing older can resurface
-        vcheck!(vis(&before) == vis(&after), "compact:a dropped tombstone lets an older value outside the compaction resurface");
+        if has_out {
+            vcheck!(vis(&before) == vis(&after), "compact:a dropped tombstone lets an older value outside the compaction resurface");
+        } else {
+            vcheck!(vis(&before) == vis(&after), "compact:a dropped tombstone lets an older value of the compacted segments themselves resurface");
+        }
     }
     std::mem::forget((before, after));
 }
